@@ -146,6 +146,24 @@ def spec_check_2(ctx: Ctx) -> None:
                         if differs and whole and first:
                             ok, why = True, ""
     ctx.ob(f, raises[0].stmt if raises else f.node, ok, "check_array_specs raises ValueError unless all specs == the first (equality by value: an equal spec built elsewhere — explicitly, or by unpickling — must combine)" + ("" if ok else f" — {why}"), sel="check:forall", props=["C18", "C19", "C20"])
+    # the decision does not consult state remembered under object identities: `id(x)` kept in
+    # a module-level container outlives x, and an unrelated object later allocated at the same
+    # address inherits the remembered answer
+    scope_ = [f] + [t.ref for c_ in f.own_nodes() if isinstance(c_, ast.Call) for t in repo.resolve_call(c_, f, f.module) if t.kind == "def" and t.ref.is_func and t.ref.module.qual.startswith("cubed.") and t.ref is not f]
+    for h in dict.fromkeys(scope_):
+        hfl, hcfg = flow_of(repo, h), cfg_of(h)
+        globs = {tg.id for st_ in h.module.tree.body if isinstance(st_, (ast.Assign, ast.AnnAssign)) for tg in (st_.targets if isinstance(st_, ast.Assign) else [st_.target]) if isinstance(tg, ast.Name)}
+        for n_ in h.own_nodes():
+            # `key in G` / G.add(key) / G[key] with key built from id(...)
+            keyed = None
+            if isinstance(n_, ast.Compare) and len(n_.ops) == 1 and isinstance(n_.ops[0], (ast.In, ast.NotIn)) and isinstance(n_.comparators[0], ast.Name) and n_.comparators[0].id in globs and not hfl.is_local(n_.comparators[0].id):
+                keyed = n_.left
+            if keyed is not None and hcfg.has(n_):
+                exprs = [keyed]
+                if isinstance(keyed, ast.Name):
+                    exprs = [s_.value for s_ in hfl.rdefs(keyed.id, hcfg.node_of(n_)) if s_.value is not None]
+                if any(isinstance(x, ast.Call) and isinstance(x.func, ast.Name) and x.func.id == "id" for e_ in exprs for x in ast.walk(e_)):
+                    ctx.ob(h, n_, False, f"`{unparse(n_, 50)}`: the spec check consults a module-level container keyed by id(...) — identities are reused after garbage collection, so a different spec can inherit a remembered 'equal'", sel="check:no-identity-cache", props=["C18", "C19", "C20"], firm=True)
     rets = cfg.returns()
     okr = bool(rets) and all(r.stmt.value is not None and isinstance(r.stmt.value, ast.Attribute) and r.stmt.value.attr == "spec" and mentions_name(r.stmt.value, f.params[0]) for r in rets)
     ctx.ob(f, rets[0].stmt if rets else f.node, okr, "check_array_specs returns the spec of a checked array", sel="check:returns", props=["C18"])
